@@ -109,9 +109,13 @@ pub fn run_case(id: usize, input: &Value) {
     emit(id, &coq, input.clone(), &tags, nontrivial, json!({"single": String::from_utf8_lossy(&single), "chunked": String::from_utf8_lossy(&chunked)}));
 }
 
+/// removes the inserted values, the LAST filter's first: the filters run in list order, so a later filter may insert its
+/// value INSIDE a value an earlier filter inserted (a text filter appends `<i>..</i>` at end of stream, the HTML stage
+/// that follows holds an unterminated `<html ...` and completes it with that `<i>`, then prepends its own value right
+/// after it); undoing the passes in reverse order recovers the input, as C04_filter_list states (one pass per filter)
 pub fn strip_values(out: &[u8], values: &[String]) -> Vec<u8> {
     let mut cur = out.to_vec();
-    for v in values {
+    for v in values.iter().rev() {
         let vb = v.as_bytes();
         if vb.is_empty() { continue; }
         let mut res = Vec::new();
